@@ -228,7 +228,17 @@ void Server::Private::remove(EstablisherImpl &establisher)
 
 void Server::Private::remove(TimerImpl &timer)
 {
-  for (MultiMap<int64, TimerImpl *>::Iterator i = _queuedTimers.find(timer.executionTime), end = _queuedTimers.end(); i != end; ++i)
+  MultiMap<int64, TimerImpl *>::Iterator i = _queuedTimers.find(timer.executionTime), end = _queuedTimers.end();
+  // find() returns any of the entries with an equal execution time: rewind to the first of them
+  while (i != end && i != _queuedTimers.begin())
+  {
+    MultiMap<int64, TimerImpl *>::Iterator prev = i;
+    --prev;
+    if (prev.key() != timer.executionTime)
+      break;
+    i = prev;
+  }
+  for (; i != end; ++i)
   {
     if (*i == &timer)
     {
